@@ -754,6 +754,45 @@ func TestSideBySide(t *testing.T) {
 	}, func(c ECase) error { _, e := runEncrypt(c); return e })
 }
 
+// TestMultiSets: drawn ordered sets of 2-4 recipients / signers over all algorithms.
+func TestMultiSets(t *testing.T) {
+	rec := ev.New(prop, "multi-sets", "rapid-generated ordered sets of 2-4 recipients over the 13 key-management algorithms usable with several recipients (RSA recipients hold different keys of one size) "+
+		"and of 2-4 signers over the 12 signature algorithms, 6 content encryptions, payload sizes 0..600: full JSON serialisation parsed back, every recipient decrypts / every signer's key verifies, a stranger fails; "+
+		"non-trivial = two RSA recipients or two signers of one family")
+	multiKeyAlgs := []string{"RSA1_5", "RSA-OAEP", "RSA-OAEP-256", "A128KW", "A192KW", "A256KW", "ECDH-ES+A128KW", "ECDH-ES+A192KW", "ECDH-ES+A256KW", "A128GCMKW", "A192GCMKW", "A256GCMKW", "RSA1_5"}
+	ev.Rapid(t, "multi-sets", 120, 20000, func(t *rapid.T) {
+		c := MCase{Size: rapid.IntRange(0, 600).Draw(t, "size"), Fill: rapid.Uint64().Draw(t, "fill"), Enc: rapid.SampledFrom(encAlgs).Draw(t, "enc")}
+		if rapid.Bool().Draw(t, "jwe") {
+			c.Recips = rapid.SliceOfN(rapid.SampledFrom(multiKeyAlgs), 2, 4).Draw(t, "recips")
+		} else {
+			c.Sigs = rapid.SliceOfN(rapid.SampledFrom(sigAlgs), 2, 4).Draw(t, "sigs")
+		}
+		err := ev.Try(func() error { return runMulti(c) })
+		nrsa := 0
+		for _, a := range c.Recips {
+			if strings.HasPrefix(a, "RSA") {
+				nrsa++
+			}
+		}
+		fam := map[string]int{}
+		for _, a := range c.Sigs {
+			fam[a[:2]]++
+		}
+		nt := nrsa >= 2
+		for _, n := range fam {
+			nt = nt || n >= 2
+		}
+		var cl []string
+		if nrsa >= 2 {
+			cl = append(cl, "two-rsa-recipients")
+		}
+		rec.Case(nt, ev.Hash(c), cl, func() any { return c })
+		if err != nil {
+			fail(t, "multi", c, err)
+		}
+	})
+}
+
 var recRandom = ev.New(prop, "random-objects",
 	"rapid-generated JWS/JWE cases over the same matrices with uniform payload sizes 0..600, drawn keys, serialisations, AAD lengths and 4 drawn bit positions per field; non-trivial = payload on a block boundary, "+
 		"or an EC key/signature with a leading zero byte, or a flip of the last bit of a field").Require("jws", "jwe", "block-edge", "last-bit", "sig-leading-zero")
@@ -815,9 +854,94 @@ type MCase struct {
 	Size int    `json:"size"`
 	Fill uint64 `json:"fill"`
 	Enc  string `json:"enc"`
+	// Recips / Sigs: key-management / signature algorithms of the recipients / signers, in order (empty = the fixed trio)
+	Recips []string `json:"recips,omitempty"`
+	Sigs   []string `json:"sigs,omitempty"`
+}
+
+// runMultiSet: any ordered set of recipients (RSA recipients alternate between the two fixture keys, so two
+// RSA recipients of one object hold different keys of the same size) and of signers; every one succeeds on the
+// parsed object, a stranger does not.
+func runMultiSet(c MCase) error {
+	payload := rtmpx.Fill(c.Size, c.Fill)
+	if len(c.Recips) > 0 {
+		me, err := jose.NewMultiEncrypter(jose.ContentEncryption(c.Enc))
+		if err != nil {
+			return err
+		}
+		var dec []interface{}
+		nrsa := 0
+		for i, alg := range c.Recips {
+			ec := ECase{Alg: alg, Enc: c.Enc, Key: i, KFill: c.Fill + uint64(i)*977}
+			if strings.HasPrefix(alg, "RSA") {
+				ec.Key = nrsa
+				nrsa++
+			}
+			ek, dk, _, err := encKeys(ec)
+			if err != nil {
+				return err
+			}
+			if err := me.AddRecipient(jose.KeyAlgorithm(alg), ek); err != nil {
+				return fmt.Errorf("AddRecipient(%s): %v", alg, err)
+			}
+			dec = append(dec, dk)
+		}
+		obj, err := me.Encrypt(payload)
+		if err != nil {
+			return fmt.Errorf("multi encrypt %v: %v", c.Recips, err)
+		}
+		parsed, err := jose.ParseEncrypted(obj.FullSerialize())
+		if err != nil {
+			return fmt.Errorf("parse multi-recipient object %v: %v", c.Recips, err)
+		}
+		for i, k := range dec {
+			got, err := parsed.Decrypt(k)
+			if err != nil || !bytes.Equal(got, payload) {
+				return fmt.Errorf("recipients %v: recipient %d (%s) cannot decrypt the object with its own key: %v", c.Recips, i, c.Recips[i], err)
+			}
+		}
+		if _, err := parsed.Decrypt(rtmpx.Fill(16, c.Fill+555555)); err == nil {
+			return fmt.Errorf("recipients %v: a key that is not a recipient decrypts the object", c.Recips)
+		}
+	}
+	if len(c.Sigs) > 0 {
+		ms := jose.NewMultiSigner()
+		var ver []interface{}
+		for i, alg := range c.Sigs {
+			sk, vk, _, err := sigKeys(SCase{Alg: alg, Key: 32 + i, HKey: c.Fill + uint64(i)*13})
+			if err != nil {
+				return err
+			}
+			if err := ms.AddRecipient(jose.SignatureAlgorithm(alg), sk); err != nil {
+				return fmt.Errorf("AddRecipient(%s): %v", alg, err)
+			}
+			ver = append(ver, vk)
+		}
+		sobj, err := ms.Sign(payload)
+		if err != nil {
+			return fmt.Errorf("multi sign %v: %v", c.Sigs, err)
+		}
+		sp, err := jose.ParseSigned(sobj.FullSerialize())
+		if err != nil {
+			return fmt.Errorf("parse multi-signature object %v: %v", c.Sigs, err)
+		}
+		for i, k := range ver {
+			got, err := sp.Verify(k)
+			if err != nil || !bytes.Equal(got, payload) {
+				return fmt.Errorf("signers %v: signature %d (%s) does not verify with its own key: %v", c.Sigs, i, c.Sigs[i], err)
+			}
+		}
+		if _, err := sp.Verify(rtmpx.Fill(32, c.Fill+777777)); err == nil {
+			return fmt.Errorf("signers %v: a key that signed nothing verifies the object", c.Sigs)
+		}
+	}
+	return nil
 }
 
 func runMulti(c MCase) error {
+	if len(c.Recips) > 0 || len(c.Sigs) > 0 {
+		return runMultiSet(c)
+	}
 	payload := rtmpx.Fill(c.Size, c.Fill)
 	// JWE: three recipients of three kinds; each one decrypts; a stranger does not
 	me, err := jose.NewMultiEncrypter(jose.ContentEncryption(c.Enc))
